@@ -149,15 +149,17 @@ def evaluate(ctx, p, res, base, replay, truth_ir, via):
         ctx.event("targets_compared")
 
 
-def one(ctx, cfg, rich, wild, via, tmproot, with_return=False):
+def one(ctx, cfg, rich, wild, via, tmproot, with_return=False, key=0):
     root = tempfile.mkdtemp(prefix="p", dir=tmproot)
+    wild0 = wild
     try:
-        p = make_project(ctx.rng, root, cfg["truth"], cfg["pre"], method=cfg["method"], rich=rich, kinds=cfg["kinds"], wild=wild, with_return=with_return)
+        p = make_project(ctx.case_rng("{}:{}".format(key, with_return)), root, cfg["truth"], cfg["pre"], method=cfg["method"], rich=rich, kinds=cfg["kinds"], wild=wild, with_return=with_return)
         wild = wild or with_return  # return entries: judged by the differential oracle only
         truth_ir, problem = parse_target(p.truth, p.files[p.truth], p.names[p.truth])
         base = {"op": OP, "truth": p.truth, "method": p.method, "n_kinds": len(cfg["kinds"]), "rich": rich, "wild": wild, "via": via, "with_return": with_return,
                 "pre_states": sorted(set(cfg["pre"].values())), "truth_func_before": p.features.get(p.truth + "_func_before", False)}
-        replay = {"cfg": {k: (list(v) if isinstance(v, tuple) else v) for k, v in cfg.items()}, "rich": rich, "wild": wild, "via": via,
+        replay = {"cfg": {k: (list(v) if isinstance(v, tuple) else v) for k, v in cfg.items()}, "rich": rich, "wild": wild0, "via": via,
+                  "with_return": with_return, "key": key, "seed": ctx.seed, "tier": ctx.tier,
                   "files": {os.path.basename(f): (open(f).read() if os.path.exists(f) else None) for f in p.files.values()}}
         base["truth_problem"] = problem
         if problem:
@@ -197,12 +199,12 @@ def run(ctx):
                 for s in cfg["pre"].values():
                     ctx.feature("pre=" + s)
                 ctx.feature("via=" + via)
-                one(ctx, cfg, rich, wild, via, tmproot)
+                one(ctx, cfg, rich, wild, via, tmproot, key=idx)
                 if len(cfg["kinds"]) == 3 and (ci + rep) % 2 == 0:
                     # the same configuration with a truth that has a return entry
                     ctx.case(sig + (rep, "with_return"), nontrivial=True)
                     ctx.feature("with_return")
-                    one(ctx, cfg, rich, False, "api", tmproot, with_return=True)
+                    one(ctx, cfg, rich, False, "api", tmproot, with_return=True, key=idx)
     finally:
         shutil.rmtree(tmproot, ignore_errors=True)
     ctx.note("distinct_configurations_this_shard", len(seen))
@@ -212,6 +214,13 @@ def run(ctx):
 def replay(payload):
     from ..runner import Ctx
 
-    ctx = Ctx(PROPERTY, "quick", 0)
+    rp = payload["replay"]
+    ctx = Ctx(PROPERTY, rp.get("tier", "quick"), rp.get("seed", 0))
     ctx.case(("replay",))
+    cfg = dict(rp["cfg"], kinds=tuple(rp["cfg"]["kinds"]))
+    tmproot = tempfile.mkdtemp(prefix="dtverif-c09-")
+    try:
+        one(ctx, cfg, rp["rich"], rp["wild"], rp["via"], tmproot, with_return=rp.get("with_return", False), key=rp.get("key", 0))
+    finally:
+        shutil.rmtree(tmproot, ignore_errors=True)
     return ctx
